@@ -20,7 +20,7 @@ class T:
         return self.inner if self.kind in ('ref', 'rref') else self
     def is_ref(self): return self.kind in ('ref', 'rref')
 
-_TOK = re.compile(r'\s*(::|<|>|,|\*|&&|&|\(|\)|\[|\]|[A-Za-z_~][A-Za-z_0-9]*|-?\d+[uUlL]*|\.\.\.)')
+_TOK = re.compile(r'\s*(\(lambda at [^)]*\)|\(anonymous namespace\)|\(anonymous\)|::|<|>|,|\*|&&|&|\(|\)|\[|\]|[A-Za-z_~][A-Za-z_0-9]*|-?\d+[uUlL]*|\.\.\.)')
 
 PRIM_WORDS = {'unsigned', 'signed', 'int', 'long', 'short', 'char', 'bool', 'float', 'double', 'void', 'wchar_t', 'char16_t', 'char32_t', '__int128'}
 
@@ -98,14 +98,6 @@ class TypeParser:
         while True:
             t = self.next()
             if t is None: raise Cxx2cError('type parser: unexpected end in %r' % self.src)
-            if t == '(':
-                # (anonymous namespace) / (lambda at ...)
-                depth = 1; acc = ['(']
-                while depth:
-                    q = self.next(); acc.append(q)
-                    if q == '(': depth += 1
-                    elif q == ')': depth -= 1
-                t = ''.join(acc)
             name = t
             a = []
             if self.peek() == '<':
